@@ -244,6 +244,12 @@ static econf_err pr_key_file(struct econf_file *key_file)
             if (groupCount > 0 && groups[0] != NULL)
                 continue; /* no keys without a group */
         }
+        if (g > 0 && econf_error == ECONF_NOKEY) {
+            /* a section without any key: it is listed, and the following
+               sections are still shown */
+            printf("%s\n\n", group);
+            continue;
+        }
         if (econf_error) {
 	    print_error(econf_error);
             econf_free(keys);
